@@ -14,6 +14,8 @@ Static clauses:
             base64 Engine::decode, bech32::decode, str::split_once + parse::<u32>), and no text-to-integer parse uses another radix
 Not decided: that each decoder inverts its encoding (value-level); ENCODINGS decides which decoders are in use.
 """
+import re
+
 from .. import mir, e3_trav as e3
 from ..common import CallGraph, table, call_matches, with_closures
 from ..engine import Result, ok, finding, assumption, where
@@ -149,6 +151,9 @@ def field_use(F, res):
     res.floor("ResolveParams fields", len(adt["variants"][0]["fields"]), 3)
 
 
+LOOKUP_RE = re.compile(r"(BTreeMap|HashMap)::<K, V(, [A-Z])*>::(get|get_key_value|remove|remove_entry|get_mut)$")
+
+
 def declared_only(F, res):
     from ..common import with_helpers
     f = with_helpers(F, "tx3_resolver::trp::parse_resolve_request")
@@ -156,7 +161,9 @@ def declared_only(F, res):
     du = mir.DefUse(f)
     w = where(f)
     inserts = [(bi, t) for bi, t in mir.calls(f) if (t.get("callee") or "").endswith("BTreeMap::<K, V, A>::insert")]
-    gets = [(bi, t) for bi, t in mir.calls(f) if (t.get("callee") or "").endswith("BTreeMap::<K, V, A>::get")]
+    # lookups of the key in the declared-parameter table, whatever accessor is used (whether the table may be *consumed* by the
+    # lookup is C17's rule)
+    gets = [(bi, t) for bi, t in mir.calls(f) if LOOKUP_RE.search(t.get("callee") or "")]
     fj = [(bi, t) for bi, t in mir.calls(f) if call_matches(t, "tx3_resolver::interop::from_json")]
     key = f["path"] + "|insert only for declared keys"
     if not inserts or not fj:
@@ -181,7 +188,7 @@ def declared_only(F, res):
     why = []
     for fb, ft in fj:
         o = mir.provenance(f, du, ft["args"][1])
-        if any(x.kind == "call" and x.callee.endswith("BTreeMap::<K, V, A>::get") for x in o):
+        if any(x.kind == "call" and LOOKUP_RE.search(x.callee) for x in o):
             why.append("type argument derives from params.get(&key)")
         else:
             good2 = False
